@@ -521,6 +521,33 @@ impl DynamicTable {
     }
 }
 
+#[cfg(h3_verif)]
+impl DynamicTable {
+    /// Verification hook: current size of the table (sum of entry sizes).
+    pub fn verif_curr_size(&self) -> usize {
+        self.curr_size
+    }
+    /// Verification hook: current capacity.
+    pub fn verif_max_size(&self) -> usize {
+        self.max_size
+    }
+    /// Verification hook: number of live entries.
+    pub fn verif_len(&self) -> usize {
+        self.fields.len()
+    }
+    /// Verification hook: number of insertions so far.
+    pub fn verif_total_inserted(&self) -> usize {
+        self.total_inserted()
+    }
+    /// Verification hook: the live entries, oldest first.
+    pub fn verif_entries(&self) -> Vec<(Vec<u8>, Vec<u8>)> {
+        self.fields
+            .iter()
+            .map(|f| (f.name.to_vec(), f.value.to_vec()))
+            .collect()
+    }
+}
+
 impl From<vas::Error> for Error {
     fn from(e: vas::Error) -> Self {
         match e {
